@@ -176,6 +176,7 @@ func TestVerif_C13(t *testing.T) {
 			c.ToolError(err.Error())
 			return
 		}
+		defer bpfCleanup(dir)
 		v4, v6, err := loadLayouts(dir)
 		if err != nil {
 			c.ToolError(err.Error())
